@@ -195,10 +195,15 @@ class SymbolOrFixtureCall(CodegenNode):
 
 @dataclasses.dataclass
 class WithTagsCall(CodegenNode):
-  """Represents a call to auto_config.with_tags()."""
+  """Represents a call to auto_config.with_tags().
+
+  If `use_tag_new` is set, this is emitted as `Tag.new(value)` instead, which is
+  the spelling that works outside of auto_config functions.
+  """
 
   tag_symbol_expressions: List[str]
   item_to_tag: Any
+  use_tag_new: bool = False
 
 
 @dataclasses.dataclass
